@@ -670,6 +670,8 @@ def run_property(prop, spec, tier, seed, only=None, keep=False, jobs=None):
         # longest first
         order = sorted(hs, key=lambda h: -h.timeout)
         lock = threading.Lock()
+        mem_cv = threading.Condition()
+        mem_used = [0.0]
         queue = list(order)
         tdirs = []
 
@@ -683,8 +685,18 @@ def run_property(prop, spec, tier, seed, only=None, keep=False, jobs=None):
                     if not queue:
                         return
                     h = queue.pop(0)
-                wait_for_memory()
-                r = run_kani_harness(h, src, tdir, logdir)
+                wgt = mem_weight(h)
+                with mem_cv:
+                    while mem_used[0] + wgt > MEM_BUDGET_GB and mem_used[0] > 0:
+                        mem_cv.wait(timeout=10)
+                    mem_used[0] += wgt
+                try:
+                    wait_for_memory()
+                    r = run_kani_harness(h, src, tdir, logdir)
+                finally:
+                    with mem_cv:
+                        mem_used[0] -= wgt
+                        mem_cv.notify_all()
                 log("%s %-44s %-9s %6.1fs vars=%s %s" % (prop, h.name, r["verdict"], r["wall_s"], r["sat_vars"], r["why"][:160]))
                 if r["verdict"] == "fail":
                     k = match_known(prop, h.name, r)
@@ -742,6 +754,16 @@ def run_property(prop, spec, tier, seed, only=None, keep=False, jobs=None):
             undecided.append((hh, {"verdict": "undecided", "why": "SMT lemma used by the environment model not proved: %s %s" % (lm["lemma"], lm["solvers"])}))
     return dict(results=results, violations=violations, known_hits=known_hits, undecided=undecided,
                 errors=errors, wall_s=time.time() - t0, harnesses=hs, lemmas=lemmas)
+
+
+# memory-weighted admission: the sandbox has 62 GB and no swap; 16 concurrent CBMC runs of the large harnesses
+# (5-8 GB each at their peak, goto-instrument included) were killed by the kernel's OOM killer
+HEAVY_RE = re.compile(r"c09_rev_densify|c09_(opt|rev)_slice|c09_opt_densify_m4|c02_pmh|c04_ss_step|c04_smh_step_.*_m4|c04_smh2_step_m4|c12_pmh2|c03_single_.*_m4")
+MEM_BUDGET_GB = float(os.environ.get("VERIF_MEM_BUDGET_GB", "44"))
+
+
+def mem_weight(h):
+    return 8.0 if HEAVY_RE.search(h.name) else 2.0
 
 
 def mem_available_gb():
